@@ -92,6 +92,40 @@ Theorem C05_proxy_methods : forall c d p n,
 Proof. exact proxy_methods_eq_advertised. Qed.
 Print Assumptions C05_proxy_methods.
 
+(* History independence.  (1) The verdict on a request is a function of the target object's class table and
+   its current instance dictionary only: two worker states of objects of class c — reached by whatever
+   histories, with whatever lock owners and call logs, whatever the accepted methods do — that hold the same
+   instance dictionary give the same verdict on the same name (when the lock admits the caller), namely
+   check_and_get c dict name. *)
+Theorem C05_verdict_depends_on_table_and_dict_only :
+  forall (A R T : Type) (teqb : T -> T -> bool) c
+         (bh1 bh2 : name -> A -> list name -> list name * R) (st1 st2 : wstate A T) (rq1 rq2 : request A T),
+  w_inst st1 = w_inst st2 -> rq_name rq1 = rq_name rq2 ->
+  admits A T teqb st1 rq1 = true -> admits A T teqb st2 rq2 = true ->
+  reply_verdict R (snd (handle A R T teqb c bh1 st1 rq1)) =
+  reply_verdict R (snd (handle A R T teqb c bh2 st2 rq2)) /\
+  reply_verdict R (snd (handle A R T teqb c bh1 st1 rq1)) = Some (check_and_get c (w_inst st1) (rq_name rq1)).
+Proof. exact verdict_function_of_table_and_dict. Qed.
+Print Assumptions C05_verdict_depends_on_table_and_dict_only.
+
+(* (2) Several objects of arbitrary classes in one process, any history l of requests and lock changes
+   addressed to any of them (accepted, refused, repeated, to other objects first or afterwards): if accepted
+   methods do not rebind instance attributes, the object at position j is still of its class, holds its
+   initial instance dictionary, and the verdict on ANY request to it is the one its class table and initial
+   dictionary give — earlier requests, to it or to other objects, play no role. *)
+Theorem C05_history_independent :
+  forall (A R T : Type) (teqb : T -> T -> bool)
+         (behave : cls -> name -> A -> list name -> list name * R),
+  (forall c n a i, fst (behave c n a i) = i) ->
+  forall (l : list (nat * op A T)) (s : list (object A T)) j c st (rq : request A T),
+  nth_error s j = Some (c, st) ->
+  exists st', nth_error (fst (sys_run A R T teqb behave s l)) j = Some (c, st') /\
+    w_inst st' = w_inst st /\
+    reply_verdict R (snd (handle A R T teqb c (behave c) st' rq)) =
+    if admits A T teqb st' rq then Some (check_and_get c (w_inst st) (rq_name rq)) else None.
+Proof. exact history_independent. Qed.
+Print Assumptions C05_history_independent.
+
 (* ---- Non-vacuity: a concrete class in the shape of a QMI instrument driver ------------------------- *)
 Definition ex_object : layer :=
   mkLayer [("__init__", KBuiltin); ("__getattribute__", KBuiltin); ("__class__", KProperty)] [] [].
@@ -149,3 +183,16 @@ Example C05_example_history :
   snd r = [Some (RUnknownRpc RejNotMarked); Some (RResult 3); None; Some RLocked; Some (RResult 5);
            Some (RUnknownRpc RejNoAttr)].
 Proof. vm_compute. split; reflexivity. Qed.
+
+(* two objects of different classes in one process: `cm` is accepted on the second, refused on the first,
+   in both orders and when repeated *)
+Example C05_example_two_objects :
+  let behave := fun (c : cls) (n : name) (a : nat) (i : list name) => (i, a) in
+  let s := [(ex_cls, mkW (T:=nat) None ["_name"] []); (ex_mismatch, mkW None [] [])] in
+  let rq := fun n => OMethod (mkReq n 0 None) in
+  snd (sys_run nat nat nat Nat.eqb behave s
+         [(0, rq "cm"); (1, rq "cm"); (0, rq "cm"); (1, rq "get_power"); (0, rq "get_power"); (1, rq "cm");
+          (2, rq "cm")])
+  = [Some (Some (RUnknownRpc RejNoAttr)); Some (Some (RResult 0)); Some (Some (RUnknownRpc RejNoAttr));
+     Some (Some (RResult 0)); Some (Some (RResult 0)); Some (Some (RResult 0)); None].
+Proof. vm_compute. reflexivity. Qed.
